@@ -2,12 +2,12 @@
 """writes seeded/RESULTS.md from the output of tools/run_seeded.sh (one line per seeded change)"""
 import json, os, re, sys
 HERE = os.path.dirname(os.path.dirname(os.path.abspath(__file__)))
-lines = [l.strip() for l in open(sys.argv[1]) if re.match(r'^C\d+-[AB]:', l)]
+lines = [l.strip() for f in sys.argv[1:] for l in open(f) if re.match(r'^C\d+-[AB]\d?:', l)]
 out = ['# Seeded changes vs the quick checks', '',
-       'Produced by `tools/run_seeded.sh` (apply the patch to /repo, run `./check <Cxx>`, undo). One row per kept change.', '',
+       'Produced by `tools/run_seeded.sh` (apply the patch to /repo, run `./check <Cxx>`, undo). One row per kept change; suffix 2 / 3 = second / third round.', 'First-contact results of round 2 (before the checks were strengthened): `sweep2_first_contact.txt`. Round 3 first contact: 7 of 14 missed (see DESIGN.md A.5).', '',
        '| seed | property | what the change needs to manifest (from the sub-agent notes) | check exit | VIOLATION lines | first replay |', '|---|---|---|---|---|---|']
 for l in lines:
-    m = re.match(r'^(C\d+-[AB]): exit (\d+); (\d+) violation lines; ?(.*)$', l)
+    m = re.match(r'^(C\d+-[AB]\d?): exit (\d+); (\d+) violation lines; ?(.*)$', l)
     if not m:
         continue
     seed, rc, n, first = m.groups()
@@ -15,7 +15,9 @@ for l in lines:
     notes = meta.get('notes', '')
     need = ''
     mm = re.search(r'(?i)(needs?|manifest)[^\n]*\n?([^\n]*)', notes)
-    sect = notes.split('Mutation B' if seed.endswith('A') else '\x00')[0] if seed.endswith('A') else notes.split('Mutation B')[-1] if 'Mutation B' in notes else notes
+    letter = re.sub(r'\d', '', seed.split('-')[1])
+    parts = re.split(r'(?im)^#+ *(?:Patch|Mutation) *B\b', notes)
+    sect = parts[0] if letter == 'A' else (parts[-1] if len(parts) > 1 else notes)
     sect = re.sub(r'\s+', ' ', sect)[:260]
     out.append('| %s | %s | %s | %s | %s | %s |' % (seed, seed.split('-')[0], sect.replace('|', '/'), rc, n, first.replace('VIOLATION property=%s replay=' % seed.split('-')[0], '').replace('/verif/', '')))
 detected = sum(1 for l in lines if '; 0 violation' not in l and 'exit 1' in l)
